@@ -443,7 +443,8 @@ def _decode_all(cx):
     if step_block is None:
         return False, "loop body not found"
     outs = ev.ev(step_block, st0, path)
-    live = [(v, s2) for v, s2 in outs if s2.feasible]
+    import models as _models
+    live = [(v, s2) for v, s2 in outs if s2.feasible and not _models._assertion_failure(s2)]      # assertions: not this rule's business
     if len(live) != 1:
         probs.append("%d paths through one iteration (an instruction may be skipped or handled specially)" % len(live))
     for _v, s2 in live:
